@@ -15,7 +15,7 @@ pub struct Case {
     /// how many times the main template is rendered per parser (1..3)
     pub renders: u8,
     /// per partial (by position): 0 = source as printed, 1 = + "\n", 2 = + " \n\n", 3 = "\n" + source,
-    /// 4 = the empty source
+    /// 4 = the empty source, 5 / 6 = lone braces as text before the first markup, 7 = after the last
     #[serde(default)]
     pub source_variant: Vec<u8>,
     /// additional literal partial sources (name, source), e.g. `x` next to `x.liquid`
@@ -39,6 +39,9 @@ impl Case {
                     2 => format!("{s} \n\n"),
                     3 => format!("\n{s}"),
                     4 => String::new(),
+                    5 => format!("{{ {s}"),
+                    6 => format!("a }} {{ b {s}"),
+                    7 => format!("{s} {{ }}"),
                     _ => s,
                 };
                 (n, s)
@@ -137,6 +140,15 @@ pub fn oracle(c: &Case, obs: &mut Obs) -> Check {
             return Err(Failure::new(format!("policies: {:?} and Eager disagree", POLICIES[pi]), format!("{}\n eager={}\n {:?}={}", describe(), lq::show(&all[0][0]), POLICIES[pi], lq::show(&rs[0]))));
         }
     }
+    // the enumerated literal-name families have a closed-form expected output
+    if let Some(want) = expected_literal(c) {
+        obs.class("closed_form_expected");
+        if eager != want {
+            return Err(Failure::new("policies: a literal partial name does not resolve to the source registered under that name", format!("{}
+ expected={want:?}
+ got={}", describe(), lq::show(&all[0][0]))));
+        }
+    }
     // (iii) paths that do not reach a bad partial are unaffected: same scenario with the broken
     // partials removed from the source behaves identically
     if sc.partials.iter().any(|(_, d)| matches!(d, PDef::Broken)) {
@@ -163,7 +175,7 @@ pub fn oracle(c: &Case, obs: &mut Obs) -> Check {
 fn fixed() -> Vec<Case> {
     let mut v = Vec::new();
     for sc in c08::enumerated_scenarios() {
-        for variant in 0u8..5 {
+        for variant in 0u8..8 {
             v.push(Case { sc: sc.clone(), renders: 2, source_variant: vec![variant; 3], extra_sources: vec![], main_override: None });
         }
     }
@@ -198,13 +210,70 @@ fn dot_liquid() -> Vec<Case> {
     v
 }
 
+/// Name shapes a source may be asked for: mixed-case sets (stores that sort or search names must
+/// use one order) and path-like names (`./x`, `dir/x`, `X` next to `x`): which names exist x every
+/// sequence of 1..2 calls.
+fn name_shapes() -> Vec<Case> {
+    let empty = Scenario { main: vec![], partials: vec![], data: crate::rv::obj(vec![]) };
+    let mut v = Vec::new();
+    let mixed = ["Zeta", "alpha", "Beta", "gamma", "B", "a"];
+    for set in 1u32..(1 << mixed.len()) {
+        let present: Vec<&str> = mixed.iter().enumerate().filter(|(i, _)| set >> i & 1 == 1).map(|(_, n)| *n).collect();
+        let extra: Vec<(String, String)> = present.iter().map(|n| (n.to_string(), format!("[{n} {{{{ k }}}}]"))).collect();
+        for form in 0..2 {
+            let main: String = present.iter().map(|n| if form == 0 { format!("<{{% render '{n}', k: 1 %}}>") } else { format!("<{{% include '{n}' k: 1 %}}>") }).collect();
+            v.push(Case { sc: empty.clone(), renders: 2, source_variant: vec![], extra_sources: extra.clone(), main_override: Some(main) });
+        }
+    }
+    let pathy = ["x", "./x", "dir/x", "X"];
+    let calls: Vec<String> = pathy.iter().flat_map(|n| [format!("<{{% render '{n}', k: 1 %}}>"), format!("<{{% include '{n}' k: 1 %}}>")]).collect();
+    for set in 1u32..(1 << pathy.len()) {
+        let extra: Vec<(String, String)> = pathy.iter().enumerate().filter(|(i, _)| set >> i & 1 == 1).map(|(_, n)| (n.to_string(), format!("[{n} {{{{ k }}}}]"))).collect();
+        for a in 0..calls.len() {
+            v.push(Case { sc: empty.clone(), renders: 2, source_variant: vec![], extra_sources: extra.clone(), main_override: Some(calls[a].clone()) });
+            for b in 0..calls.len() {
+                v.push(Case { sc: empty.clone(), renders: 2, source_variant: vec![], extra_sources: extra.clone(), main_override: Some(format!("{}{}", calls[a], calls[b])) });
+            }
+        }
+    }
+    v
+}
+
+/// What a name resolves to under the in-memory source, by the documented rule: the exact name;
+/// `render` additionally falls back to name + ".liquid".
+fn expected_literal(c: &Case) -> Option<Result<String, ()>> {
+    let main = c.main_override.as_ref()?;
+    let mut out = String::new();
+    let mut rest = main.as_str();
+    while let Some(stripped) = rest.strip_prefix("<{% ") {
+        let end = stripped.find(" %}>")?;
+        let call = &stripped[..end];
+        rest = &stripped[end + 4..];
+        let (is_render, tail) = if let Some(t) = call.strip_prefix("render '") { (true, t) } else { (false, call.strip_prefix("include '")?) };
+        let name = &tail[..tail.find('\'')?];
+        let find = |n: &str| c.extra_sources.iter().find(|(k, _)| k == n).map(|x| x.1.clone());
+        let src = find(name).or_else(|| if is_render { find(&format!("{name}.liquid")) } else { None });
+        match src {
+            // sources of these families are `[LABEL {{ k }}]` + optional newline, called with k: 1
+            Some(s) => {
+                out.push('<');
+                out.push_str(&s.replace("{{ k }}", "1"));
+                out.push('>');
+            }
+            None => return Some(Err(())),
+        }
+    }
+    if rest.is_empty() { Some(Ok(out)) } else { None }
+}
+
 pub fn run(ctx: &Ctx) {
-    ctx.set_rule("All scenarios of the C08 generator (a main template and up to three partials that are valid, syntactically broken or absent; literal and dynamic partial names; executed and dead paths; every include/render form) plus the C08 enumerated call-form family; each scenario builds three parsers (eager, lazy, on-demand compilation over the in-memory source) and renders the main template 1..3 times on each, interleaved with an unrelated template. Oracle: build succeeds under every policy; every render has the same Ok/Err status and the same output under the three policies; the n-th render equals the first; replacing a broken partial by an absent one changes nothing; the unrelated template is unaffected. Partial sources are also varied literally (trailing / leading newline, the empty source) and a family of names with and without the `.liquid` suffix (x, x.liquid, both) is enumerated for every sequence of <= 3 include/render calls. Non-trivial = a broken or absent partial exists, or partials are executed >= 2 times; distinct by scenario.");
+    ctx.set_rule("All scenarios of the C08 generator (a main template and up to three partials that are valid, syntactically broken or absent; literal and dynamic partial names; executed and dead paths; every include/render form) plus the C08 enumerated call-form family; each scenario builds three parsers (eager, lazy, on-demand compilation over the in-memory source) and renders the main template 1..3 times on each, interleaved with an unrelated template. Oracle: build succeeds under every policy; every render has the same Ok/Err status and the same output under the three policies; the n-th render equals the first; replacing a broken partial by an absent one changes nothing; the unrelated template is unaffected. Partial sources are also varied literally (trailing / leading newline, the empty source) and a family of names with and without the `.liquid` suffix (x, x.liquid, both) is enumerated for every sequence of <= 3 include/render calls, as are mixed-case name sets (every non-empty subset of 6 names) and path-like names (x, ./x, dir/x, X: every subset x every sequence of <= 2 calls); for these literal families the expected output is also computed in closed form (the exact name; render falls back to name.liquid). Lone braces as plain text before / after the markup of a partial are source variants too. Non-trivial = a broken or absent partial exists, or partials are executed >= 2 times; distinct by scenario.");
     ctx.assume("error message texts are not compared across policies (eager and lazy word 'unknown partial' differently)");
     ctx.cases("call_forms", fixed(), oracle);
     ctx.cases("dot_liquid_names", dot_liquid(), oracle);
+    ctx.cases("name_shapes", name_shapes(), oracle);
     ctx.random("scenarios", ctx.pick(20_000, 500_000), || {
-        (c08::scenario(), 1u8..=3, proptest::collection::vec(prop_oneof![4 => Just(0u8), 1 => 1u8..5], 3))
+        (c08::scenario(), 1u8..=3, proptest::collection::vec(prop_oneof![4 => Just(0u8), 1 => 1u8..8], 3))
             .prop_map(|(sc, renders, source_variant)| Case { sc, renders, source_variant, extra_sources: vec![], main_override: None })
     }, oracle);
 }
